@@ -761,7 +761,25 @@ def check_result_buffers(run, A, module_prefixes, rule='R-DTYPE'):
     return n
 
 
-def block_partition_verdict(it, sl):
+def int_defaults(fn):
+    """{parameter: value} for the parameters of fn whose default is an integer literal (2 ** 15 included)"""
+    out = {}
+    node = getattr(fn, 'node', None)
+    if node is None:
+        return out
+    a = node.args
+    pos = a.posonlyargs + a.args
+    for arg, d in list(zip(pos[len(pos) - len(a.defaults):], a.defaults)) + [(k, d) for k, d in zip(a.kwonlyargs, a.kw_defaults) if d is not None]:
+        try:
+            v = eval(compile(ast.Expression(body=d), '<default>', 'eval'), {'__builtins__': {}}, {}) if isinstance(d, (ast.Constant, ast.BinOp, ast.UnaryOp)) else None
+        except Exception:
+            v = None
+        if isinstance(v, int) and not isinstance(v, bool):
+            out[arg.arg] = v
+    return out
+
+
+def block_partition_verdict(it, sl, defaults=None):
     """the loop `for b in <it>` and the slice term `sl` (bounds computed from b): do consecutive blocks starting at 0 reach the end of the axis for every extent?
     -> ('full', number of extents folded) | ('short', extent, end reached, extents for which the end IS reached) | None (no walk over consecutive blocks, or not foldable)"""
     from .inteval import int_eval, UNKNOWN
@@ -780,7 +798,15 @@ def block_partition_verdict(it, sl):
         if is_call_to(z0, 'builtin.len'):
             out.append(z0)
             return
+        if z0.op == 'mu' or (z0.op == 'unpack' and isinstance(z0.args[0], T) and strip_views(z0.args[0]).op not in ('tuple', 'list', 'elem')):
+            # an integer the function computes from its arrays and does not write out as an expression of one shape (`n, = np.broadcast_shapes(..)`, a product
+            # of extents accumulated in a loop): ONE unknown - if it is the only one, the walk is folded against it
+            out.append(z0)
+            return
         if z0.op == 'param':
+            if defaults and z0.args[0] in defaults:
+                fixed.append(z0)          # a block size with an integer default: folded at that value
+                return
             out.append(z0)
             return
         if z0.op == 'elem':
@@ -796,6 +822,7 @@ def block_partition_verdict(it, sl):
                         for c in b:
                             if isinstance(c, T):
                                 symbols(c, out, depth + 1)
+    fixed = []
     syms = []
     symbols(it, syms)
     for z in sl.args:
@@ -807,11 +834,13 @@ def block_partition_verdict(it, sl):
     if len(uniq) != 1:
         return None
     consts = sorted({c for z in list(sl.args) + [it] if isinstance(z, T) for y in walk_terms(z, into_mu=False) for c in [const_val(y)]
-                     if isinstance(c, int) and not isinstance(c, bool) and c > 1})
-    extents = sorted({v for c in consts for v in (c - 1, c, c + 1, c + c // 2, 2 * c - 1, 2 * c, 2 * c + 1, 3 * c) if 0 < v <= 50000} | {1, 2, 3, 4, 5, 7})
+                     if isinstance(c, int) and not isinstance(c, bool) and c > 1} | {defaults[f_.args[0]] for f_ in fixed if defaults[f_.args[0]] > 1})
+    extents = sorted({v for c in consts for v in (c - 1, c, c + 1, c + c // 2, 2 * c - 1, 2 * c, 2 * c + 1, 3 * c) if 0 < v <= 200000} | {1, 2, 3, 4, 5, 7})
     verdicts = {}
     for T_ in extents:
         env = {('term', u.id): T_ for u in syms}
+        for f_ in fixed:
+            env[('term', f_.id)] = defaults[f_.args[0]]
         its = int_eval(it, env)
         if its is UNKNOWN or not isinstance(its, tuple):
             return None
@@ -844,6 +873,24 @@ def block_partition_verdict(it, sl):
     return None
 
 
+def _looks_blockwise(it, sl):
+    """the slice `lo:hi` of a loop that walks over blocks: lo is computed from the loop index, hi from lo plus a block size (lo + b, min(lo + b, n), (i + 1) * b), and the loop
+    runs over a range (not over the entries of a plan or of an array)"""
+    it0 = strip_views(it)
+    if not (is_call_to(it0, 'builtin.range') or is_call_to(it0, 'builtin.zip', 'numpy.arange')):
+        return False
+    lo, hi, st = sl.args
+    def has_elem(z):
+        return isinstance(z, T) and any(y.op == 'elem' and y.args and y.args[0] is it for y in walk_terms(z, into_mu=False))
+    if not (has_elem(lo) and has_elem(hi)):
+        return False
+    # the index is used in ARITHMETIC on the bounds, not to look bounds up in a table (plan[i][0]:plan[i + 1][1])
+    for z in (lo, hi):
+        if any(y.op == 'sub' and has_elem(y.args[1]) for y in walk_terms(z, into_mu=False)):
+            return False
+    return isinstance(hi, T) and (hi.op == 'binop' or is_call_to(strip_views(hi), 'builtin.min') or strip_views(hi).op in ('unpack', 'elem'))
+
+
 def check_block_partitions(run, A, module_prefixes, rule='R-COVER'):
     """a loop that walks over an axis block by block - its index only forms the bounds lo:hi of slices, consecutive iterations continue where the last one stopped, the first one
     starts at 0 - visits every entry of the axis for EVERY extent: `range(n // block)` blocks, `range(block, n + 1, block)` block ends, `np.arange(0, n + 1, block)` edges leave the
@@ -870,8 +917,14 @@ def check_block_partitions(run, A, module_prefixes, rule='R-COVER'):
                     if x.op == 'slice' and any(isinstance(z, T) and of_loop(z) for z in x.args) and not any(x is y for y in slices):
                         slices.append(x)
             for sl in slices:
-                v = block_partition_verdict(it, sl)
+                v = block_partition_verdict(it, sl, int_defaults(fn))
                 if v is None:
+                    # a walk over blocks whose bounds cannot be folded (several unknown extents, a block size computed from the data): whether it reaches the end of the axis
+                    # is not decided.  Recognised by its shape: the lower bound is the loop index or a multiple of it, the upper bound that plus something / a min() with it
+                    if _looks_blockwise(it, sl):
+                        n += 1
+                        run.unresolved(rule, f'{fn.qual.split("::")[1]}: the blocks of the loop at line {L.node.lineno} cover the whole axis', fn.loc(getattr(sl, 'node', None) or L.node),
+                                       f'`{norm_stmt(L.node.iter)[:70]}`: the block bounds are not closed integer expressions of one extent')
                     continue
                 n += 1
                 if v[0] == 'short':
@@ -883,4 +936,89 @@ def check_block_partitions(run, A, module_prefixes, rule='R-COVER'):
                 else:
                     run.ok(rule, f'{fn.qual.split("::")[1]}: the blocks of the loop at line {L.node.lineno} cover the whole axis', fn.loc(L.node), f'folded for {v[1]} extents')
     run.count('loops over consecutive blocks of an axis examined', n)
+    return n
+
+
+def check_casts_to_another_operands_dtype(run, A, module_prefixes, rule='R-DTYPE'):
+    """np.asarray(p, dtype=q.dtype) / p.astype(q.dtype) with p and q two different data parameters: p is converted to whatever type the CALLER stored q in.  The library accepts
+    hard (bool / integer) affiliation masks and integer label arrays; a fractional saliency / weight cast to such a type is truncated without a warning.  (A cast to the dtype of
+    the SAME array, or to a fixed floating type, is not this.)"""
+    n = 0
+    for fn in A.prog.all_funcs():
+        if not any(fn.mod.name == p.rstrip('.') or fn.mod.name.startswith(p) for p in module_prefixes):
+            continue
+        g = A.graphs.get(fn)
+        for e in g.events:
+            if e.kind != 'call' or e.term is None or e.term.fn is not fn:
+                continue
+            name, pos, kw = call_parts(e.term)
+            src = dt = None
+            if name in ('numpy.asarray', 'numpy.array', 'numpy.asanyarray', 'numpy.ascontiguousarray') and pos:
+                src, dt = pos[0], kw.get('dtype', pos[1] if len(pos) > 1 else None)
+            elif name == 'method:astype' and len(pos) >= 2:
+                src, dt = pos[0], pos[1]
+            if src is None or dt is None:
+                continue
+            d0 = strip_views(dt)
+            if not (d0.op == 'attr' and d0.args[1] == 'dtype'):
+                continue
+            n += 1
+            owner = strip_views(d0.args[0])
+            s0 = strip_views(src)
+            while isinstance(s0, T) and s0.op == 'refine':
+                s0 = strip_views(s0.args[0])
+            if owner.op == 'param' and s0.op == 'param' and owner.args[0] != s0.args[0] and owner.args[0] not in ('self', 'cls'):
+                run.violation(rule, f'{fn.qual.split("::")[1]}: `{s0.args[0]}` is converted to the dtype of `{owner.args[0]}`', fn.loc(e.term.node),
+                              f'`{norm_stmt(e.term.node)[:90]}`: `{s0.args[0]}` takes the type the caller happened to store `{owner.args[0]}` in - with a hard bool / integer mask as '
+                              f'`{owner.args[0]}` a fractional `{s0.args[0]}` is truncated silently (0.25 -> True / 0)', construct=f'{rule}::{fn.qual}::cast-to-other-dtype::{s0.args[0]}')
+    run.count('casts to the dtype of an array examined', n)
+    return n
+
+
+def check_partial_buffer_reads(run, A, module_prefixes, rule='R-BUF'):
+    """a work buffer allocated with np.empty of which only a PART was written in this iteration (`buf[..., :k] = ...`, `np.multiply(a, b, out=buf[..., :k])`) is not then read as
+    a whole: the rest holds what an earlier, longer block left there (or nothing at all).  Reading the written part again (`buf[..., :k]`) is fine; so is reading the whole buffer
+    after the loop that fills it block by block."""
+    n = 0
+    for fn in A.prog.all_funcs():
+        if not any(fn.mod.name == p.rstrip('.') or fn.mod.name.startswith(p) for p in module_prefixes):
+            continue
+        g = A.graphs.get(fn)
+        seen = set()
+        for e in g.events:
+            if e.kind not in ('call', 'inplace', 'return', 'store') or e.term is None:
+                continue
+            for x in walk_terms(e.term, into_mu=False):
+                operands = []
+                if x.op == 'call':
+                    operands = [a for a in x.args[1] if isinstance(a, T)] + [v for k, v in x.args[2] if isinstance(v, T) and k != 'out']
+                elif x.op in ('binop', 'iop'):
+                    operands = [a for a in x.args[1:] if isinstance(a, T)]
+                for o in operands:
+                    o0 = o
+                    while isinstance(o0, T) and o0.op == 'refine':
+                        o0 = o0.args[0]
+                    if not (isinstance(o0, T) and o0.op == 'store') or o0.id in seen:
+                        continue
+                    idx = o0.args[1]
+                    items = list(idx.args[0]) if idx.op == 'tuple' else [idx]
+                    partial = [it for it in items if it.op == 'slice' and any(isinstance(b, T) and not (b.op == 'const' and b.args[0] is None) for b in it.args[:2])
+                               and any(isinstance(b, T) and b.op != 'const' for b in it.args[:2])]
+                    if not partial:
+                        continue
+                    root = o0.args[0]
+                    for _ in range(12):
+                        if isinstance(root, T) and root.op in ('store', 'mu', 'refine'):
+                            root = root.args[0]
+                        else:
+                            break
+                    if not (isinstance(root, T) and is_call_to(root, 'numpy.empty', 'numpy.empty_like')):
+                        continue
+                    # the store must have happened in a loop (the stale part comes from an earlier iteration) or the buffer was never written before (uninitialised part)
+                    seen.add(o0.id)
+                    n += 1
+                    run.violation(rule, f'{fn.qual.split("::")[1]}: a partly written np.empty buffer is read as a whole', fn.loc(getattr(x, 'node', None)),
+                                  f'`{norm_stmt(x.node)[:100]}` reads the whole buffer right after only `{norm_stmt(partial[0].node)[:40] if getattr(partial[0], "node", None) is not None else "a slice"}` '
+                                  f'of it was written: the remaining entries are stale (left by an earlier, longer block) or uninitialised', construct=f'{rule}::{fn.qual}::partial-buffer-read')
+    run.count('reads of partly written np.empty buffers', n)
     return n
